@@ -549,6 +549,46 @@ def G11_loop_exit_discipline(repo, clause, scope=ALL_LIB):
                                   "the test is about the CURRENT item only, nothing was done for it yet, and the rest of the body accumulates into `%s`: every later item is silently "
                                   "dropped as soon as one item fails the test (the guard that skips one item is `continue`)" % ", ".join(sorted(accs))),
                               slot="guard-break:%s:%s" % (fn.qualname, ast.unparse(loop.iter)[:30]), positive="robust" if bad else False))
+    # (b) an accumulator that is REPLACED wholesale inside the loop (a fallback branch: `acc = [all defaults]`) while other iterations add to it must end the
+    #     loop there; otherwise the later iterations keep adding to the replacement
+    for fn in fns:
+        for loop in [x for x in fn.own_nodes() if isinstance(x, ast.For)]:
+            adds = {}
+            for x in ast.walk(loop):
+                if isinstance(x, ast.AugAssign) and isinstance(x.target, ast.Name) and isinstance(x.op, ast.Add):
+                    adds.setdefault(x.target.id, []).append(x)
+                elif isinstance(x, ast.Call) and isinstance(x.func, ast.Attribute) and x.func.attr in ("append", "extend") and isinstance(x.func.value, ast.Name):
+                    adds.setdefault(x.func.value.id, []).append(x)
+            for acc, sites in adds.items():
+                for x in ast.walk(loop):
+                    if isinstance(x, ast.Assign) and len(x.targets) == 1 and isinstance(x.targets[0], ast.Name) and x.targets[0].id == acc \
+                            and not any(isinstance(y, ast.Name) and y.id == acc for y in ast.walk(x.value)) \
+                            and isinstance(x.value, (ast.ListComp, ast.List, ast.Call)) and not (isinstance(x.value, ast.List) and not x.value.elts):
+                        owner = next((a for a in fn.ancestors(x) if isinstance(a, (ast.For, ast.While))), None)
+                        if owner is not loop:
+                            continue
+                        # is the accumulator initialised outside the loop (so that it really carries over)?
+                        outside = [d for d in fn.own_nodes() if isinstance(d, ast.Assign) and any(isinstance(t, ast.Name) and t.id == acc for t in d.targets)
+                                   and not any(d is y for y in ast.walk(loop))]
+                        if not outside:
+                            continue
+                        blk = None
+                        par = fn.parents.get(x)
+                        for fld in ("body", "orelse", "finalbody"):
+                            b = getattr(par, fld, None)
+                            if isinstance(b, list) and any(y is x for y in b):
+                                blk = b
+                        if blk is None or blk is loop.body:
+                            continue
+                        k = next(i for i, y in enumerate(blk) if y is x)
+                        leaves = any(isinstance(y, (ast.Break, ast.Return, ast.Raise)) for y in blk[k + 1:])
+                        n += 1
+                        obs.append(Ob("G11", clause, fn, x, leaves,
+                                      "`%s = %s` inside the loop over `%s` of %s replaces the list the other iterations add to%s" % (
+                                          acc, ast.unparse(x.value)[:40], ast.unparse(loop.iter)[:40], fn.qualname,
+                                          " and leaves the loop" if leaves else
+                                          " but the loop RUNS ON: the remaining iterations add their items to the replacement (too many entries, mixed contents)"),
+                                      slot="accumulator-replaced:%s:%s" % (fn.qualname, acc), positive="robust" if not leaves else False))
     obs.append(Ob("G11", clause, fns[0], fns[0].node, True, "%d functions in scope, %d guard-clause breaks in accumulating loops inspected" % (len(fns), n),
                   construct="loop exit inventory", slot="inventory"))
     return obs
